@@ -13,15 +13,15 @@ def special(name, quick, thorough, **kw):
 CONFIG = {
     "C01": {"jobs": [lockstep("C01", 4000, 60000), lockstep("general", 1500, 20000)]},
     "C02": {"jobs": [lockstep("C02", 4000, 60000), lockstep("general", 1500, 20000)]},
-    "C03": {"jobs": [lockstep("C03", 4000, 60000)]},
-    "C04": {"jobs": [lockstep("C04", 4000, 60000)]},
+    "C03": {"jobs": [lockstep("C03", 4000, 60000), special("resizeidle", 400, 4000)]},
+    "C04": {"jobs": [lockstep("C04", 4000, 60000), special("resizeidle", 400, 4000)]},
     "C05": {"jobs": [lockstep("C05", 4000, 60000)]},
     "C06": {"jobs": [lockstep("C06", 4000, 60000)]},
-    "C07": {"jobs": [lockstep("C07", 4000, 60000)]},
+    "C07": {"jobs": [lockstep("C07", 4000, 60000), special("roundtrip", 300, 4000)]},
     "C08": {"jobs": [special("segmentation", 1500, 30000)]},
     "C09": {"jobs": [lockstep("C09", 4000, 60000), special("embed", 1500, 30000)]},
     "C10": {"jobs": [lockstep("C10", 4000, 60000)]},
-    "C11": {"jobs": [special("roundtrip", 1500, 20000), special("ttymirror", 600, 8000)]},
+    "C11": {"jobs": [special("roundtrip", 1500, 20000), special("ttymirror", 600, 8000), lockstep("C02", 1000, 15000)]},
     "C12": {"jobs": [special("keys", 200000, 4000000)]},
     "C13": {"jobs": [special("mouse", 1, 1)]},
     "C14": {"jobs": [lockstep("C14", 4000, 60000)]},
